@@ -841,6 +841,24 @@ class Evaluator:
                 else:
                     out.append((conds | cc, env, None))
             return out
+        # mapping-build idiom: `d = {}; for x in it: [if c(x):] d[k(x)] = v(x)`  ==  {k(x): v(x) for x in it if c(x)}
+        b0, dfilt = (st.body[0] if len(st.body) == 1 else None), []
+        if isinstance(b0, ast.If) and not b0.orelse and len(b0.body) == 1:
+            dfilt, b0 = [b0.test], b0.body[0]
+        if isinstance(b0, ast.Assign) and len(b0.targets) == 1 and isinstance(b0.targets[0], ast.Subscript) \
+                and isinstance(b0.targets[0].value, ast.Name) and b0.targets[0].value.id not in names:
+            dn = b0.targets[0].value.id
+            cur = env.get(dn)
+            reads_self = any(isinstance(n, ast.Name) and n.id == dn for x in [b0.value, b0.targets[0].slice] + dfilt for n in ast.walk(x))
+            if isinstance(cur, Obj) and cur.cls == "dict" and not cur.fields and not reads_self:
+                pairs = ast.ListComp(elt=ast.Tuple(elts=[b0.targets[0].slice, b0.value], ctx=ast.Load()),
+                                     generators=[ast.comprehension(target=st.target, iter=st.iter, ifs=dfilt, is_async=0)])
+                dc = ast.DictComp(key=b0.targets[0].slice, value=b0.value, generators=pairs.generators)
+                vs = self.ev(dc, env, ctx)
+                if len(vs) == 1 and not vs[0][0]:
+                    e2 = dict(env)
+                    e2[dn] = vs[0][1]
+                    return [(conds, e2, None)]
         if (self.effects_mode and ctx.fx and self._has_effects(st.body)) or self._has_carried_stores(st.body, env, names):
             return self._generic_loop(it_term, st.body, conds, env, lv_env, names, ctx)
         body = list(st.body)
